@@ -1,33 +1,45 @@
-(* C01 — a miniature of the evaluator (text interpolation, static and bound attributes, v-text,
-   v-if / v-else on a variable, v-if comparing a variable with a literal, v-for over a list, nested
-   arbitrarily) in which a string value may be replaced by an opaque HOLE.  Running a template with a
-   hole in place of a value succeeds exactly when no construct inspects the value's content. *)
+(* C01 — a miniature of the evaluator (text interpolation, static and bound attributes, v-text, v-show,
+   v-if / v-else-if / v-else chains on variables, v-if comparing a variable with a literal, v-for over a
+   list, components included with static / interpolated / bound props and supplied slot content, slots
+   with fallback, nested arbitrarily) in which a string value may be replaced by an opaque HOLE.
+   Running a template with a hole in place of a value succeeds exactly when no construct inspects the
+   value's content. *)
 From Coq Require Import List Bool Arith Lia.
 Import ListNotations.
 From V Require Import Base.Bytes.
 Definition name := nat.
-Inductive val := VNil | VBool (b : bool) | VStr (s : bytes) | VList (l : list val) | VHole (b : bool).
 
-(* strings with holes *)
-Definition hstr := list (bytes + unit).
-Definition fill1 (s : bytes) (c : bytes + unit) : bytes := match c with inl b => b | inr _ => s end.
+(* strings with holes; a hole carries the truthiness of the string that will fill it *)
+Definition hstr := list (bytes + bool).
+Definition fill1 (s : bytes) (c : bytes + bool) : bytes := match c with inl b => b | inr _ => s end.
 Definition fill (s : bytes) (h : hstr) : bytes := flat_map (fill1 s) h.
 Lemma fill_app s a b : fill s (a ++ b) = fill s a ++ fill s b.
 Proof. apply flat_map_app. Qed.
 Arguments fill : simpl never.
 
+(* VHStr: a string built by interpolation (a static prop such as title="Hello {{ name }}"): literal
+   pieces and holes *)
+Inductive val := VNil | VBool (b : bool) | VStr (s : bytes) | VList (l : list val) | VHole (b : bool) | VHStr (h : hstr).
+
 (* replace every hole by the concrete string *)
 Fixpoint subst (s : bytes) (v : val) : val :=
   match v with
   | VHole _ => VStr s
+  | VHStr h => VStr (fill s h)
   | VList l => VList (map (subst s) l)
   | _ => v
   end.
 
 Definition s_false : bytes := bs "false".
 Definition truthy_str (s : bytes) : bool := negb (bytes_eqb s [] || bytes_eqb s s_false).
-Definition truthy (v : val) : bool :=
-  match v with VNil => false | VBool b => b | VStr s => truthy_str s | VList _ => true | VHole b => b end.
+Definition is_lit (c : bytes + bool) : bool := match c with inl _ => true | inr _ => false end.
+(* truthiness; None: deciding it would inspect the content of a hole *)
+Definition truthy (v : val) : option bool :=
+  match v with
+  | VNil => Some false | VBool b => Some b | VStr s => Some (truthy_str s) | VList _ => Some true | VHole b => Some b
+  | VHStr h => if forallb is_lit h then Some (truthy_str (fill [] h))
+               else match h with [inr b] => Some b | _ => None end
+  end.
 
 (* fmt.Sprint, producing a string with holes *)
 Definition sp : bytes := [x20].
@@ -36,8 +48,9 @@ Fixpoint sprint (v : val) : hstr :=
   | VNil => []
   | VBool true => [inl (bs "true")] | VBool false => [inl (bs "false")]
   | VStr s => [inl s]
-  | VHole _ => [inr tt]
-  | VList l => [inl [x5b]] ++ flat_map (fun x => sprint x ++ [inl sp]) l ++ [inl [x5d]]
+  | VHole b => [inr b]
+  | VHStr h => h
+  | VList l => [inl [x5b]] ++ tl (flat_map (fun x => inl sp :: sprint x) l) ++ [inl [x5d]]   (* [a b c] *)
   end.
 
 Definition env := list (name * val).
@@ -48,13 +61,23 @@ Definition senv (s : bytes) (r : env) : env := map (fun kv => (fst kv, subst s (
 (* templates *)
 Inductive seg := Lit (b : bytes) | Var (x : name).
 Inductive tattr := AStatic (k : bytes) (v : list seg) | ABound (k : bytes) (x : name).
+(* props of an include: name="lit {{ x }}" (a string) or :name="x" (the value itself) *)
+Inductive tprop := PStatic (k : name) (v : list seg) | PBound (k : name) (x : name).
 Inductive tnode :=
 | TText (v : list seg)
 | TElem (tag : bytes) (a : list tattr) (kids : list tnode)
 | TVText (tag : bytes) (x : name)
+| TShow (tag : bytes) (x : name) (kids : list tnode)      (* v-show="x": truthiness only *)
 | TIf (x : name) (th el : list tnode)
+| TChain (br : list (name * list tnode)) (el : list tnode) (* v-if / v-else-if ... / v-else *)
 | TEq (x : name) (lit : bytes) (th : list tnode)          (* v-if="x == 'lit'": inspects content *)
-| TFor (v coll : name) (body : list tnode).
+| TFor (v coll : name) (body : list tnode)
+| TInclude (f : nat) (p : list tprop) (content : list tnode)
+| TSlot (fb : list tnode).
+
+(* what an includer supplied for the slot of the component being evaluated: the content, the includer's
+   variables and the includer's own closure *)
+Inductive clo := CNone | CSome (r : env) (ts : list tnode) (outer : clo).
 
 Inductive onode := OText (h : hstr) | OElem (tag : bytes) (a : list (bytes * hstr)) (kids : list onode).
 Inductive res (A : Type) := Ok (a : A) | ErrInspect | ErrOther | OutOfFuel.
@@ -66,57 +89,112 @@ Definition interp (r : env) (v : list seg) : hstr :=
                      | Var x => match lookup r x with Some w => sprint w | None => [] end
                      end) v.
 
-Definition eval_attr (r : env) (a : tattr) : list (bytes * hstr) :=
-  match a with
-  | AStatic k v => [(k, interp r v)]
-  | ABound k x => match lookup r x with
-                  | Some w => if truthy w then [(k, sprint w)] else []
-                  | None => []
-                  end
-  end.
-
 Definition bind {A B} (x : res A) (k : A -> res B) : res B :=
   match x with Ok a => k a | ErrInspect => ErrInspect | ErrOther => ErrOther | OutOfFuel => OutOfFuel end.
+Definition truthy_r (v : val) : res bool := match truthy v with Some b => Ok b | None => ErrInspect end.
+
+Definition eval_attr (r : env) (a : tattr) : res (list (bytes * hstr)) :=
+  match a with
+  | AStatic k v => Ok [(k, interp r v)]
+  | ABound k x => match lookup r x with
+                  | Some w => bind (truthy_r w) (fun b => Ok (if b then [(k, sprint w)] else []))
+                  | None => Ok []
+                  end
+  end.
+Fixpoint eval_attrs (r : env) (l : list tattr) : res (list (bytes * hstr)) :=
+  match l with
+  | [] => Ok []
+  | a :: t => bind (eval_attr r a) (fun x => bind (eval_attrs r t) (fun y => Ok (x ++ y)))
+  end.
+
+(* a string built by interpolation: a plain string unless a hole went into it *)
+Definition mk_str (h : hstr) : val := if forallb is_lit h then VStr (fill [] h) else VHStr h.
+(* a bound prop whose value is falsy or unresolved is not passed at all (evalAttributes drops it), so the
+   includer's variable of that name stays visible *)
+Definition eval_prop (r : env) (p : tprop) : res env :=
+  match p with
+  | PStatic k v => Ok [(k, mk_str (interp r v))]
+  | PBound k x => match lookup r x with
+                  | Some w => bind (truthy_r w) (fun b => Ok (if b then [(k, w)] else []))
+                  | None => Ok []
+                  end
+  end.
+Fixpoint eval_props (r : env) (l : list tprop) : res env :=
+  match l with
+  | [] => Ok []
+  | p :: t => bind (eval_prop r p) (fun x => bind (eval_props r t) (fun y => Ok (x ++ y)))
+  end.
+
+Definition s_display_none : bytes := bs "display:none;".
+Definition k_style : bytes := bs "style".
 
 Section WithEv.
-  Variable ev : env -> tnode -> res (list onode).
-  Fixpoint evals_with (r : env) (ts : list tnode) : res (list onode) :=
+  Variable ev : clo -> env -> tnode -> res (list onode).
+  Fixpoint evals_with (c : clo) (r : env) (ts : list tnode) : res (list onode) :=
     match ts with
     | [] => Ok []
-    | t :: ts' => bind (ev r t) (fun a => bind (evals_with r ts') (fun b => Ok (a ++ b)))
+    | t :: ts' => bind (ev c r t) (fun a => bind (evals_with c r ts') (fun b => Ok (a ++ b)))
     end.
-  Fixpoint loop_with (v : name) (r : env) (body : list tnode) (items : list val) : res (list onode) :=
+  Fixpoint loop_with (v : name) (c : clo) (r : env) (body : list tnode) (items : list val) : res (list onode) :=
     match items with
     | [] => Ok []
-    | it :: rest => bind (evals_with ((v, it) :: r) body) (fun a => bind (loop_with v r body rest) (fun b => Ok (a ++ b)))
+    | it :: rest => bind (evals_with c ((v, it) :: r) body) (fun a => bind (loop_with v c r body rest) (fun b => Ok (a ++ b)))
+    end.
+  Fixpoint chain_with (c : clo) (r : env) (br : list (name * list tnode)) (el : list tnode) : res (list onode) :=
+    match br with
+    | [] => evals_with c r el
+    | (x, th) :: rest =>
+        match lookup r x with
+        | Some w => bind (truthy_r w) (fun b => if b then evals_with c r th else chain_with c r rest el)
+        | None => chain_with c r rest el
+        end
     end.
 End WithEv.
 
-Fixpoint eval (fuel : nat) (r : env) (t : tnode) {struct fuel} : res (list onode) :=
+Section World.
+Variable W : list (list tnode).        (* the component files *)
+Fixpoint eval (fuel : nat) (c : clo) (r : env) (t : tnode) {struct fuel} : res (list onode) :=
   match fuel with O => OutOfFuel | S f =>
   let evals := evals_with (eval f) in
   match t with
   | TText v => Ok [OText (interp r v)]
-  | TElem tag a kids => bind (evals r kids) (fun ks => Ok [OElem tag (flat_map (eval_attr r) a) ks])
+  | TElem tag a kids => bind (eval_attrs r a) (fun at' => bind (evals c r kids) (fun ks => Ok [OElem tag at' ks]))
   | TVText tag x => Ok [OElem tag [] [OText (match lookup r x with Some w => sprint w | None => [] end)]]
+  | TShow tag x kids =>
+      bind (match lookup r x with Some w => truthy_r w | None => Ok false end) (fun b =>
+      bind (evals c r kids) (fun ks => Ok [OElem tag (if b then [] else [(k_style, [inl s_display_none])]) ks]))
   | TIf x th el =>
       match lookup r x with
-      | Some w => if truthy w then evals r th else evals r el
-      | None => evals r el
+      | Some w => bind (truthy_r w) (fun b => if b then evals c r th else evals c r el)
+      | None => evals c r el
       end
+  | TChain br el => chain_with (eval f) c r br el
   | TEq x lit th =>
       match lookup r x with
-      | Some (VStr s) => if bytes_eqb s lit then evals r th else Ok []
+      | Some (VStr s) => if bytes_eqb s lit then evals c r th else Ok []
       | Some (VHole _) => ErrInspect
+      | Some (VHStr h) => if forallb is_lit h then (if bytes_eqb (fill [] h) lit then evals c r th else Ok []) else ErrInspect
       | _ => Ok []
       end
   | TFor v coll body =>
       match lookup r coll with
-      | Some (VList items) => loop_with (eval f) v r body items
+      | Some (VList items) => loop_with (eval f) v c r body items
       | Some (VHole _) => ErrInspect
+      | Some (VHStr h) => if forallb is_lit h then Ok [] else ErrInspect
       | _ => Ok []
       end
+  | TInclude fi p content =>
+      match nth_error W fi with
+      | None => ErrOther
+      | Some body => bind (eval_props r p) (fun pe => evals (CSome r content c) (pe ++ r) body)
+      end
+  | TSlot fb =>
+      match c with
+      | CSome rc (x :: content) outer => evals outer rc (x :: content)
+      | _ => evals c r fb
+      end
   end end.
+End World.
 
 (* filling a DOM *)
 Fixpoint ofill (s : bytes) (n : onode) : onode :=
@@ -126,4 +204,3 @@ Fixpoint ofill (s : bytes) (n : onode) : onode :=
   end.
 (* normal form of a concrete DOM: every string flattened to one chunk *)
 Definition oflat := ofill [].
-
